@@ -251,7 +251,7 @@ def dispatch_rule(ctx, facts, cfg):
         seen, ext, ind, parent = facts.reach([fn])
         paths = {facts.fns[k]['path'] for k in seen} | set(ext)
         for w in want['reaches']:
-            okr = any(p == w or p.endswith('::' + w) or p.endswith(w) for p in paths)
+            okr = any(p == w1 or p.endswith('::' + w1) or p.endswith(w1) for p in paths for w1 in w.split('|'))     # `a|b`: any of these accessors
             ctx.instance(rid, 'entry %s reaches %s' % (fld, w), ok=okr, site=facts.fns[fn]['at'])
             if not okr:
                 ctx.violation(rid, fn, 'reaches-' + w.split('::')[-1], 'table entry `%s` no longer reaches the native operation %s' % (fld, w), site=facts.fns[fn]['at'], config=cfg)
@@ -730,6 +730,18 @@ def description_rule(ctx, facts, cfg):
             ctx.violation(rid, 'c_abi::CErr', 'field-type:' + fd['name'], 'CErr.%s is a %s, not a CString: that the bytes handed to C end in a NUL is no longer guaranteed by the type' % (fd['name'], fd['ty'].get('s')),
                           site=adt.get('at'), kind='undecided', config=cfg)
     bodies = [(k, f) for k, f in sorted(facts.fns.items()) if k == 'c_abi::throw_err' or k.startswith('c_abi::throw_err::')]
+    te_ = facts.fns.get('c_abi::throw_err')
+    if te_ is not None:
+        # closures that came in with a helper spliced into throw_err keep the helper's name
+        todo_ = list(facts.closures_of(te_))
+        seen_c = {k for k, _ in bodies}
+        while todo_:
+            ck_ = todo_.pop()
+            if ck_ in seen_c or ck_ not in facts.fns:
+                continue
+            seen_c.add(ck_)
+            bodies.append((ck_, facts.fns[ck_]))
+            todo_ += list(facts.closures_of(facts.fns[ck_]))
     if not bodies:
         ctx.missing(rid, 'c_abi::throw_err')
         return
